@@ -67,7 +67,7 @@ var c16AllowPool = []string{
 const c16ValidAllow = 9 // the first 9 pool entries are well-formed
 
 type c16Msg struct {
-	Kind  string `json:"kind"` // send | multisend | take | grow | run | nope | addpkg | create | revoke | revokeall
+	Kind  string `json:"kind"` // send | take | grow | run | nope | addpkg | create | revoke | revokeall
 	Amt   int64  `json:"amt,omitempty"`
 	Realm int    `json:"realm,omitempty"`
 	N     int    `json:"n,omitempty"`
@@ -96,7 +96,7 @@ type c16Case struct {
 
 func c16DrawMsg(rt *rapid.T) c16Msg {
 	m := c16Msg{}
-	m.Kind = rapid.SampledFrom([]string{"send", "send", "send", "multisend", "take", "take", "grow", "grow", "run", "nope", "addpkg", "create", "revoke", "revokeall"}).Draw(rt, "mkind")
+	m.Kind = rapid.SampledFrom([]string{"send", "send", "send", "send", "take", "take", "take", "grow", "grow", "grow", "run", "run", "nope", "addpkg", "create", "revoke", "revokeall"}).Draw(rt, "mkind")
 	m.Amt = rapid.SampledFrom([]int64{1, 100_000, 100_000, 400_000, 2_000_000}).Draw(rt, "amt")
 	m.Realm = rapid.IntRange(0, 2).Draw(rt, "realm")
 	m.N = rapid.IntRange(1, 30).Draw(rt, "n")
@@ -105,33 +105,42 @@ func c16DrawMsg(rt *rapid.T) c16Msg {
 	return m
 }
 
-func c16DrawOp(rt *rapid.T, first bool) c16Op {
+func c16DrawOp(rt *rapid.T, first bool, live *[][2]int) c16Op {
 	o := c16Op{}
-	kinds := []string{"create", "stx", "stx", "stx", "stx", "stx", "stx", "mtx", "revoke", "revokeall"}
+	kinds := []string{"create", "create", "stx", "stx", "stx", "stx", "stx", "stx", "stx", "stx", "stx", "mtx", "revoke", "revokeall"}
 	if first {
 		kinds = []string{"create"}
 	}
 	o.Kind = rapid.SampledFrom(kinds).Draw(rt, "kind")
-	o.DT = rapid.SampledFrom([]int64{1, 1, 5, 20, 60, 300, 2000}).Draw(rt, "dt")
+	o.DT = rapid.SampledFrom([]int64{1, 1, 1, 5, 20, 60, 300, 2000}).Draw(rt, "dt")
 	o.Master = rapid.IntRange(0, 1).Draw(rt, "master")
 	o.Sess = rapid.IntRange(0, 2).Draw(rt, "sess")
-	o.Fee = rapid.SampledFrom([]int64{1, 50_000, 200_000}).Draw(rt, "fee")
+	// aim most session traffic and revocations at sessions that were created earlier in the history
+	if o.Kind != "create" && len(*live) > 0 && rapid.IntRange(0, 9).Draw(rt, "aim") != 0 {
+		p := rapid.SampledFrom(*live).Draw(rt, "live")
+		o.Master, o.Sess = p[0], p[1]
+	}
+	o.Fee = rapid.SampledFrom([]int64{1, 1, 50_000, 200_000}).Draw(rt, "fee")
 	switch o.Kind {
 	case "create":
 		o.Limit = rapid.SampledFrom([]int64{0, 300_000, 1_000_000, 1_000_000, 5_000_000}).Draw(rt, "limit")
 		o.LimitTok = rapid.SampledFrom([]int64{0, 0, 50}).Draw(rt, "limtok")
 		o.Period = rapid.SampledFrom([]int64{0, 0, 50, 400}).Draw(rt, "period")
-		o.ExpiresIn = rapid.SampledFrom([]int64{0, 0, 100, 1000, 100_000}).Draw(rt, "expires")
+		o.ExpiresIn = rapid.SampledFrom([]int64{0, 0, 0, 100, 1000, 100_000}).Draw(rt, "expires")
 		n := rapid.IntRange(1, 3).Draw(rt, "nallow")
 		for i := 0; i < n; i++ {
-			if rapid.IntRange(0, 9).Draw(rt, "badallow") == 0 {
+			switch rapid.IntRange(0, 9).Draw(rt, "allowkind") {
+			case 0:
 				o.Allow = append(o.Allow, rapid.IntRange(c16ValidAllow, len(c16AllowPool)-1).Draw(rt, "allow"))
-			} else {
-				o.Allow = append(o.Allow, rapid.IntRange(0, c16ValidAllow-1).Draw(rt, "allow"))
+			case 1, 2, 3:
+				o.Allow = append(o.Allow, 0) // "*"
+			default:
+				o.Allow = append(o.Allow, rapid.IntRange(1, c16ValidAllow-1).Draw(rt, "allow"))
 			}
 		}
+		*live = append(*live, [2]int{o.Master, o.Sess})
 	case "stx", "mtx":
-		n := rapid.IntRange(1, 3).Draw(rt, "nmsgs")
+		n := rapid.SampledFrom([]int{1, 1, 1, 2, 2, 3}).Draw(rt, "nmsgs")
 		for i := 0; i < n; i++ {
 			o.Msgs = append(o.Msgs, c16DrawMsg(rt))
 		}
@@ -143,8 +152,9 @@ func c16DrawOp(rt *rapid.T, first bool) c16Op {
 func c16Draw(rt *rapid.T) c16Case {
 	n := rapid.IntRange(8, 22).Draw(rt, "nops")
 	c := c16Case{}
+	var live [][2]int
 	for i := 0; i < n; i++ {
-		c.Ops = append(c.Ops, c16DrawOp(rt, i == 0))
+		c.Ops = append(c.Ops, c16DrawOp(rt, i == 0, &live))
 	}
 	return c
 }
@@ -245,9 +255,6 @@ func (w *c16World) buildMsg(m c16Msg, from crypto.Address, op c16Op, idx int) c1
 	switch m.Kind {
 	case "send":
 		return c16MsgInfo{msg: bank.MsgSend{FromAddress: from, ToAddress: w.rcpt, Amount: coin()}, route: "bank", typ: "send"}
-	case "multisend":
-		c := coin()
-		return c16MsgInfo{msg: bank.MsgMultiSend{Inputs: []bank.Input{{Address: from, Coins: c}}, Outputs: []bank.Output{{Address: w.rcpt, Coins: c}}}, route: "bank", typ: "multisend"}
 	case "take":
 		return c16MsgInfo{msg: ec.Call(from, realm, "Take", nil, std.Coins{std.NewCoin("ugnot", m.Amt)}), route: "vm", typ: "exec", path: realm}
 	case "grow":
@@ -477,7 +484,7 @@ func c16Exec(ctx *vk.Ctx, c c16Case) error {
 		case "stx":
 			if !antePassed {
 				denied++
-				ctx.Class("stx rejected: " + c16Reason(r.Error))
+				ctx.Class("stx rejected: " + c16Reason(r.Error, r.Log))
 				if ok {
 					return fmt.Errorf("%s: response OK but GasWanted=0", what)
 				}
@@ -559,16 +566,17 @@ func c16Exec(ctx *vk.Ctx, c c16Case) error {
 	return nil
 }
 
-func c16Reason(err error) string {
+func c16Reason(err error, log string) string {
 	if err == nil {
 		return "none"
 	}
-	s := err.Error()
+	s := err.Error() + " " + log
 	for _, p := range []string{"unknown session", "session expired", "spend limit", "no spend limit", "cannot be signed by a session", "not permitted by session AllowPaths", "signature verification failed", "insufficient"} {
 		if strings.Contains(s, p) {
 			return p
 		}
 	}
+	s = err.Error()
 	if len(s) > 40 {
 		s = s[:40]
 	}
@@ -605,7 +613,7 @@ func c16LedgerDiff(a, b *ec.Ledger) string {
 func TestC16_Sessions(t *testing.T) {
 	vk.Run(t, vk.Spec[c16Case]{
 		ID: "C16", Name: "TestC16_Sessions",
-		Rule: "rapid: histories of 8-22 ops (one tx per block, clock steps 1-2000 s) over 2 masters x 3 session keys: create (limit ugnot 0/0.3M/1M/5M and optional realm-denom limit, period 0/50/400 s, expiry never/100/1000/100000 s, 1-3 allow-path entries from a pool of 9 well-formed and 9 malformed ones), revoke, revoke-all, master-signed traffic, and session-signed txs with 1-3 messages (bank send / multisend in ugnot or a realm denom, calls with coins attached to realms aa, aab, aa/bb, calls locking storage deposits with or without a too-small limit, MsgRun scripts spending the master's coins through a banker, a call to a missing function, add_package, create/revoke/revoke-all session) with fees 1/50k/200k, sometimes as second signer next to the other master's own key. Oracle: window model fed with the measured balance decrease of the master; session must exist, be unexpired and its allow-paths (independent matcher) must cover every message; rejected txs move no coins; non-trivial = one session has >=3 accepted txs in one window with a failing one in the middle",
+		Rule: "rapid: histories of 8-22 ops (one tx per block, clock steps 1-2000 s) over 2 masters x 3 session keys: create (limit ugnot 0/0.3M/1M/5M and optional realm-denom limit, period 0/50/400 s, expiry never/100/1000/100000 s, 1-3 allow-path entries from a pool of 9 well-formed and 9 malformed ones), revoke, revoke-all, master-signed traffic, and session-signed txs with 1-3 messages (bank send in ugnot or a realm denom, calls with coins attached to realms aa, aab, aa/bb, calls locking storage deposits with or without a too-small limit, MsgRun scripts spending the master's coins through a banker, a call to a missing function, add_package, create/revoke/revoke-all session) with fees 1/50k/200k, sometimes as second signer next to the other master's own key. Oracle: window model fed with the measured balance decrease of the master; session must exist, be unexpired and its allow-paths (independent matcher) must cover every message; rejected txs move no coins; non-trivial = one session has >=3 accepted txs in one window with a failing one in the middle",
 		Draw: c16Draw, Exec: c16Exec,
 	})
 }
